@@ -5,8 +5,8 @@
    C0 (0x00-0x1F), DEL (0x7F), C1 (0x80-0x9F).  [wc] is wcwidth, any function
    ([wc_ascii wc]: printable ASCII has width 1); [sty] is the style machinery. *)
 From Coq Require Import ZArith List Bool.
-From PTK Require Import Lib.Sx Lib.Py Gen.C10_DisplayMappings Model.C10_Screen Model.C10_Producers
-     Proofs.C10_TableFacts Proofs.C10_CopyFacts Proofs.C10_RenderFacts Proofs.C10_ProducerFacts.
+From PTK Require Import Lib.Sx Lib.Py Gen.C10_DisplayMappings Model.C13_Utf8 Model.C10_Screen Model.C10_Producers Model.C10_Wire
+     Proofs.C10_TableFacts Proofs.C10_CopyFacts Proofs.C10_RenderFacts Proofs.C10_ProducerFacts Proofs.C10_WireFacts.
 Import ListNotations.
 Open Scope Z_scope.
 
@@ -188,6 +188,74 @@ Theorem C10_key_data_write_clean : forall s w, In (s, w) key_sequences -> s <> [
   control_free (vt_write s) = true.
 Proof. exact key_data_write_clean. Qed.
 Print Assumptions C10_key_data_write_clean.
+
+(* Round 4: the prompt message the way PromptSession shows it
+   (_split_multiline_prompt + _get_line_prefix + continuation), the meta column
+   of the completion menu, AppendAutoSuggestion and HighlightSelectionProcessor
+   (inside C10_buffer_lines_unmarked's processor list). *)
+Theorem C10_plain_session_input : forall wc sty g lexstyle ps message cont text app width ri x y last vis,
+  wc_ascii wc -> unmarked_style lexstyle -> Forall proc_unmarked ps -> all_unmarked cont ->
+  forall o c, In (o, c) (tagged_stream (rendered_tokens wc sty g
+        (Some (session_prefix (ft_of_str message) cont)) (buffer_lines lexstyle ps text) app width ri x y last vis)) ->
+  (o = FromZWE -> False) /\ (is_control c = true -> o = FromRenderer).
+Proof. exact plain_session_input_stream. Qed.
+Print Assumptions C10_plain_session_input.
+
+Theorem C10_plain_session_before : forall wc sty g message app width ri x y last vis,
+  wc_ascii wc ->
+  forall o c, In (o, c) (tagged_stream (rendered_tokens wc sty g None
+        (session_before_lines (ft_of_str message)) app width ri x y last vis)) ->
+  (o = FromZWE -> False) /\ (is_control c = true -> o = FromRenderer).
+Proof. exact plain_session_before_stream. Qed.
+Print Assumptions C10_plain_session_before.
+
+Theorem C10_plain_completion_meta : forall wc sty g meta cur w app width ri x y last vis,
+  wc_ascii wc ->
+  forall o c, In (o, c) (tagged_stream (rendered_tokens wc sty g None
+        [menu_meta wc (ft_of_str meta) cur w] app width ri x y last vis)) ->
+  (o = FromZWE -> False) /\ (is_control c = true -> o = FromRenderer).
+Proof. exact plain_meta_stream. Qed.
+Print Assumptions C10_plain_completion_meta.
+
+(* ---- the wire: flush_stdout's encode(encoding, "replace") (Model/C10_Wire.v) ----
+   A terminal in UTF-8 mode decodes exactly the code points that were sent,
+   with every unencodable one (lone surrogates, e.g. U+DC9B) replaced by "?". *)
+Theorem C10_wire_utf8_roundtrip : forall data,
+  wire_decode_utf8 (encode_utf8_replace data) = map repl_utf8 data.
+Proof. exact wire_utf8_roundtrip. Qed.
+Print Assumptions C10_wire_utf8_roundtrip.
+
+(* encoded bytes of control-free text decode to control-free text ... *)
+Theorem C10_wire_utf8_control_free : forall data, control_free data = true ->
+  control_free (wire_decode_utf8 (encode_utf8_replace data)) = true.
+Proof. exact wire_utf8_control_free. Qed.
+Print Assumptions C10_wire_utf8_control_free.
+
+(* ... and a byte below 0x80 (so every C0/DEL byte) is "?" or a code point that was sent *)
+Theorem C10_wire_utf8_ascii_bytes : forall data b, In b (encode_utf8_replace data) -> b < 128 ->
+  b = QM \/ In b data.
+Proof. exact wire_utf8_ascii_bytes. Qed.
+Print Assumptions C10_wire_utf8_ascii_bytes.
+
+(* latin-1 / ascii: the bytes of control-free text contain no C0/C1 byte *)
+Theorem C10_wire_8bit_control_free : forall limit data, control_free data = true ->
+  control_free (encode_8bit_replace limit data) = true.
+Proof. exact wire_8bit_control_free. Qed.
+Print Assumptions C10_wire_8bit_control_free.
+
+(* C10_stream carried to the wire: in what the terminal decodes, every control
+   character belongs to a renderer token or a marked zero-width escape. *)
+Theorem C10_wire_stream : forall wc sty g M pfx lines app width ri x y last vis,
+  wc_ascii wc -> pfx_marked M pfx -> (forall l, In l lines -> frags_marked M l) ->
+  forall o c, In (o, c) (decoded_tagged (rendered_tokens wc sty g pfx lines app width ri x y last vis)) ->
+  is_control c = true -> o = FromRenderer \/ o = FromZWE.
+Proof. exact wire_pipeline_stream. Qed.
+Print Assumptions C10_wire_stream.
+
+Theorem C10_wire_stream_bytes : forall toks,
+  map snd (decoded_tagged toks) = wire_decode_utf8 (encode_utf8_replace (stream toks)).
+Proof. exact decoded_tagged_is_wire. Qed.
+Print Assumptions C10_wire_stream_bytes.
 
 (* The fuelled loops of the model (row loop, "%i") never run out of fuel. *)
 Theorem C10_fuel : forall wc sty g M pfx lines app width ri x y last vis,
